@@ -235,6 +235,24 @@ def path_return(body, path):
     return (UNKNOWN, 'no-return-def')
 
 
+def resolve_phi(t, path):
+    """path-sensitive reading of a term: a `phi` (several reaching definitions of one local) is replaced by the definition whose
+    block comes last on this path; phis whose definitions are not on the path are left alone"""
+    if not isinstance(t, tuple) or not t:
+        return t
+    if t[0] == 'phi':
+        pos = {b: i for i, b in enumerate(path)}
+        best = None
+        for site, alt in t[2]:
+            b = site[0] if isinstance(site, tuple) and isinstance(site[0], int) else None
+            if b in pos and (best is None or pos[b] > best[0]):
+                best = (pos[b], alt)
+        return resolve_phi(best[1], path) if best is not None else t
+    if t[0] in ('promoted', 'str', 'int', 'named'):
+        return t
+    return tuple(resolve_phi(x, path) if isinstance(x, tuple) else x for x in t)
+
+
 def sw_true(g):
     """for a ('sw', cond, sel) guard on a bool: True / False / None"""
     if g[0] != 'sw':
